@@ -168,6 +168,10 @@ def main(pid):
                       "dmp": (i % 2 == 0) if c["hasSrc"] else True})
         if c["hasSrc"] and c["anns"] and i % 4 == 1:
             items.append({**items[-1], "dmp": not items[-1]["dmp"]})
+        if len(c["anns"]) >= 2 and i % 3 == 0 and not any(t["c"] == "d" for t in c["src"]):
+            # equal span texts in different neighbourhoods: every plain character rendered as the same digit
+            # (default engine only: with equal characters difflib's longest-block heuristic is not a minimal diff, cf. F21)
+            items.append({**items[-1], "same": True, "dmp": True})
     obs = vlib.impl_map("drv_annotate", "run_cfg", items)
     fails, drifts = tlc_judge("Trace_Annotate", "Trace_Annotate.cfg", obs, ev, "configs")
     total += len(obs)
